@@ -45,6 +45,8 @@ SUBJECTS = {
     "F07": "the disconnect message never waits for room",
     "F46": "end the connection on a malformed HTTP2-Settings header",
     "F10": "close a stream that answered by itself",
+    "F48": "release a reader parked on a pipelined request when the connection is closed",
+    "F49": "a prior-knowledge HTTP/2 connection is idle until it opens a stream",
     "F34": "a failed lifespan startup is only reported once",
     "F35": "a lifespan failure the application swallowed",
     "F36": "worker_serve returns when the lifespan app is still waiting",
